@@ -104,8 +104,9 @@ def runHist (f : File Nat) (ops : List String) : List String :=
             go fuel s1 rest (acc ++ [s!"ok{ls.length}:{hashList ls}@" ++ fp s1])
           else if op = "D" then
             -- to_dict -> from_dict: a fully loaded object with the same data
-            let s2 := { s1 with hdrLoaded := true, dataLoaded := true }
-            go fuel s1 rest (acc ++ ["ok@" ++ fp s2])
+            match s1.toDict.fromDict with
+            | .ok s2 => go fuel s1 rest (acc ++ ["ok@" ++ fp s2])
+            | .error e => go fuel s1 rest (acc ++ [showErr e ++ "@" ++ fp s1])
           else acc ++ ["bad-op"]
   go (ops.length + 1) ⟨false, false, false, none, 35, []⟩ ops []
 
@@ -128,9 +129,10 @@ def showNum (v : Option (Bool × Nat × Int)) : String :=
   | some x => decNum.sf x
 
 def describe (h : Hdr (Bool × Nat × Int)) : List String :=
-  [h.city, h.state, h.country, h.source, h.station, showNum h.lat, showNum h.lon, decNum.sf h.tz,
-   decNum.sf h.elev, showBool h.is2009, showDict h.heating, showDict h.cooling, showDict h.extremes,
-   showWeeks h.hot, showWeeks h.cold, showWeeks h.typical,
+  [h.loc.city, h.loc.state, h.loc.country, h.loc.source, h.loc.station, showNum h.loc.lat, showNum h.loc.lon,
+   decNum.sf h.loc.tz, decNum.sf h.loc.elev, showBool h.des.is2009, showDict h.des.heating,
+   showDict h.des.cooling, showDict h.des.extremes,
+   showWeeks h.weeks.hot, showWeeks h.weeks.cold, showWeeks h.weeks.typical,
    ";".intercalate (h.ground.map fun g =>
      ":".intercalate ([decNum.sf g.depth, g.cond, g.dens, g.heat] ++ g.vals.map decNum.sf)),
    showLeap h.leap, h.dstStart, h.dstEnd, ",".intercalate h.comments1, ",".intercalate h.comments2]
